@@ -11,7 +11,7 @@ Proof. intros id b H. discriminate H. Qed.
 (* 1. invariant: status Ok -> exists, complete, sorted, indexed; whatever fails, wherever, with
       whatever exception class *)
 Lemma chk_inv_pipeline : check all_kinds no_chk pipeline inv_init P_inv = true.
-Proof. vm_compute. reflexivity. Qed.
+Proof. vm_cast_no_check (eq_refl true). Qed.
 
 Lemma never_ok_early : forall cnt ch f w0 r s,
   invb w0 = true -> lost w0 = false ->
@@ -33,7 +33,7 @@ Proof. intros cnt ch e k. apply never_ok_early. Qed.
 (* 2. a run that returns normally (possibly after swallowed failures: sort retries, temp folder
       cleanup) ends with status Ok and all four *)
 Lemma chk_end_pipeline : check all_kinds no_chk pipeline fresh P_end = true.
-Proof. vm_compute. reflexivity. Qed.
+Proof. vm_cast_no_check (eq_refl true). Qed.
 
 Lemma ok_at_end : forall cnt ch f w0 s,
   lost w0 = false ->
@@ -52,7 +52,7 @@ Qed.
 Definition chk_tmp : nat -> option bool := fun id => if Nat.eqb id id_ch_tempfiles then Some false else None.
 
 Lemma chk_fail_pipeline : check all_kinds chk_tmp pipeline not_ok P_fail = true.
-Proof. vm_compute. reflexivity. Qed.
+Proof. vm_cast_no_check (eq_refl true). Qed.
 
 Lemma fail_not_ok : forall cnt ch f w0 r s,
   ch id_ch_tempfiles = false ->
@@ -90,7 +90,7 @@ Proof.
 Qed.
 
 Lemma chk_worker : check worker_kinds no_chk worker_body fresh P_four = true.
-Proof. vm_compute. reflexivity. Qed.
+Proof. vm_cast_no_check (eq_refl true). Qed.
 
 Lemma worker_complete : forall cnt ch f w0 s,
   no_timeout f ->
